@@ -105,3 +105,97 @@ def run_structured_support(maxaxes=2):
             if got != want and _report('StructuredBasis', desc, 'get_support(%d) [get_dofs per element: %r]' % (d, mine), got, want):
                 return
     print('REPLAY: not reproduced on the small bases enumerated')
+
+
+def run_ctor(cls):
+    """the constructors on small inputs: accepted exactly when the documented checks hold, and the stored tables are the class invariant"""
+    from nutils import function
+    def bad(desc, what):
+        print('%s(%s): %s' % (cls, desc, what))
+        print('REPLAY: VIOLATION-CONFIRMED %s constructor' % cls)
+        return True
+    if cls == 'DiscontBasis':
+        for counts in itertools.chain.from_iterable(itertools.product(range(0, 3), repeat=n) for n in (1, 2, 3)):
+            index, coords = _index_coords(len(counts))
+            coeffs = [numpy.zeros((c, 1)) for c in counts]
+            b = function.DiscontBasis(coeffs, index, coords)
+            want = [0] + list(numpy.cumsum(counts))
+            if list(b._offsets) != want or b.ndofs != want[-1] or b.nelems != len(counts):
+                if bad('rows per element %r' % (counts,), '_offsets=%r ndofs=%r nelems=%r ; expected offsets %r' % (list(b._offsets), b.ndofs, b.nelems, want)):
+                    return
+        try:
+            index, coords = _index_coords(1)
+            function.DiscontBasis([numpy.zeros((2,))], index, coords)
+            if bad('a 1-D coefficient table', 'accepted'):
+                return
+        except AssertionError:
+            pass
+        except Exception:
+            pass
+    elif cls == 'PlainBasis':
+        for ne in (1, 2):
+            for rows in itertools.product(range(0, 3), repeat=ne):
+                for lens in itertools.product(range(0, 3), repeat=ne):
+                    for extra in (0, 1):
+                        index, coords = _index_coords(ne)
+                        coeffs = [numpy.zeros((r, 1)) for r in rows]
+                        dofs = [numpy.zeros(l, dtype=int) for l in lens] + [numpy.zeros(0, dtype=int)] * extra
+                        good = extra == 0 and rows == lens
+                        try:
+                            b = function.PlainBasis(coeffs, dofs, 7, index, coords)
+                            ok = good and b.ndofs == 7 and b.nelems == ne and len(b._dofs) == ne and len(b._coeffs) == ne
+                        except AssertionError:
+                            ok = not good
+                        except Exception as e:
+                            ok = not good
+                        if not ok and bad('rows %r, dof counts %r (+%d arrays)' % (rows, lens, extra), 'accepted/rejected wrongly or wrong ndofs/nelems'):
+                            return
+    elif cls == 'MaskedBasis':
+        parent, _ = _plain([[0, 1], [2, 3]], 4)
+        for k in range(0, 4):
+            for ind in itertools.product(range(-1, 6), repeat=k):
+                good = all(a < b for a, b in zip(ind, ind[1:])) and all(0 <= a < 4 for a in ind)
+                try:
+                    b = function.MaskedBasis(parent, numpy.array(ind, dtype=int))
+                    ren = numpy.asarray(b._renumber.value).tolist()
+                    ok = good and b.ndofs == k and b.nelems == 2 and ren == [ind.index(j) if j in ind else k for j in range(4)]
+                    what = 'accepted, ndofs=%r nelems=%r renumber=%r' % (b.ndofs, b.nelems, ren)
+                except ValueError:
+                    ok, what = not good, 'ValueError'
+                except Exception as e:
+                    ok, what = False, type(e).__name__
+                if not ok and bad('indices=%r on 4 parent dofs' % (list(ind),), what + (' ; expected to be accepted with the inverse map' if good else ' ; expected ValueError')):
+                    return
+        try:
+            function.MaskedBasis(parent, numpy.zeros((1, 1), dtype=int))
+            if bad('2-D indices', 'accepted'):
+                return
+        except ValueError:
+            pass
+    elif cls == 'PrunedBasis':
+        tables = [[[0], [2, 3], [1, 3], [2]], [[3, 0], [0, 1], [2, 1]], [[1, 2], [0, 3], [1, 0]], [[3, 3], [1]]]
+        for dofs in tables:
+            parent, _ = _plain(dofs, 4)
+            ne = len(dofs)
+            for k in range(1, ne + 1):
+                for tm in itertools.combinations(range(ne), k):
+                    index, coords = _index_coords(k)
+                    b = function.PrunedBasis(parent, numpy.array(tm, dtype=int), index, coords)
+                    want = sorted(set(d for e in tm for d in dofs[e]))
+                    ren = [want.index(j) if j in want else len(want) for j in range(4)]
+                    if list(b._dofmap) != want or list(b._renumber) != ren or b.ndofs != len(want) or b.nelems != k:
+                        if bad('parent dofs=%r transmap=%r' % (dofs, list(tm)), '_dofmap=%r _renumber=%r ndofs=%r nelems=%r ; expected dofmap %r renumber %r' % (list(b._dofmap), list(b._renumber), b.ndofs, b.nelems, want, ren)):
+                            return
+    elif cls == 'StructuredBasis':
+        for T, N, start, lens in itertools.islice(structured_tables(2), 0, 400):
+            try:
+                b = _structured(T, N, start, lens)
+            except Exception as e:
+                if bad('transforms_shape=%r dofs_shape=%r start=%r counts=%r' % (T, N, start, lens), 'valid tables rejected: %s: %s' % (type(e).__name__, e)):
+                    return
+            ok = all(list(b._ndofs[i]) == list(lens[i]) for i in range(len(T))) and b.ndofs == int(numpy.prod(N)) and b.nelems == int(numpy.prod(T)) \
+                and all(list(b._start_dofs[i]) == list(start[i]) and list(b._stop_dofs[i]) == [s + l for s, l in zip(start[i], lens[i])] for i in range(len(T))) \
+                and list(b._dofs_shape) == list(N) and list(b._transforms_shape) == list(T)
+            if not ok and bad('transforms_shape=%r dofs_shape=%r start=%r counts=%r' % (T, N, start, lens), '_ndofs=%r ndofs=%r nelems=%r' % ([list(x) for x in b._ndofs], b.ndofs, b.nelems)):
+                return
+    print('REPLAY: not reproduced on the small inputs enumerated')
